@@ -83,16 +83,18 @@ def mods : P Mods
     | _ => none
   | [] => none
 
+/-- The CFG token is what the harness PROBED on the tree (kept in the op line as evidence).  Every switch whose fix has
+    landed in /repo is PINNED to the fixed behaviour here — slice path (489851f), record paths (12b24c0), intersection
+    path, overwrite pre-pass (49e6e91), Object.Required (75cf747) — so that a tree that behaves the legacy way again
+    is reported (impl ≠ model); the legacy variants live on only in their witness theorems.  Only `lazyWrap`, whose
+    finding is still open, follows the probe. -/
 def cfgBits (t : String) : Option Cfg :=
   match t.toList with
-  | [a, b, c, d] =>
-    some { slicePrepend := a == '1', recordKeyPath := b == '1', interPath := c == '1', lazyWrap := d == '1' }
-  | [a, b, c, d, e] =>
-    some { slicePrepend := a == '1', recordKeyPath := b == '1', interPath := c == '1', lazyWrap := d == '1',
-           owValidates := e == '1' }
-  | [a, b, c, d, e, f] =>
-    some { slicePrepend := a == '1', recordKeyPath := b == '1', interPath := c == '1', lazyWrap := d == '1',
-           owValidates := e == '1', reqFix := f == '1' }
+  | _ :: _ :: _ :: d :: rest =>
+    if rest.length ≤ 2 then
+      some { slicePrepend := true, recordKeyPath := true, interPath := true, lazyWrap := d == '1',
+             owValidates := true, reqFix := true }
+    else none
   | _ => none
 
 def natList (s : String) : Option (List Nat) :=
